@@ -171,14 +171,18 @@ structure GItem (α : Type) where
   count : Int            -- OverallRecordCount
   st : α
 
+/-- `aggregates.Get(key)`, or the fresh item that the callback creates -/
+def gEntry (agg : GAgg α) (groups : List (Row × GItem α)) (key : Row) : Row × GItem α :=
+  match aget groups key with
+  | some p => p
+  | none => (key, { count := 0, st := agg.init })
+
 /-- the body of the `produce` callback after key and aggregate inputs have been evaluated -/
 def gUpdate (agg : GAgg α) (groups : List (Row × GItem α)) (key : Row) (retr : Bool) (ins : Row) :
     List (Row × GItem α) :=
-  let (k0, it0) : Row × GItem α := match aget groups key with
-    | some p => p
-    | none => (key, { count := 0, st := agg.init })
-  let it : GItem α := { count := if retr then it0.count - 1 else it0.count + 1, st := agg.add it0.st retr ins }
-  if it.count == 0 then aremove groups key else aput groups k0 it
+  let e0 := gEntry agg groups key
+  let it : GItem α := { count := if retr then e0.2.count - 1 else e0.2.count + 1, st := agg.add e0.2.st retr ins }
+  if it.count == 0 then aremove groups key else aput groups e0.1 it
 
 def gRow (agg : GAgg α) (k : Row) (it : GItem α) : Option Row := (agg.trig it.st).map (k ++ ·)
 
